@@ -307,16 +307,31 @@ def type_sets(index: RepoIndex, rep, rule: str) -> None:
                       f'{c.name}.convert sets')
         c = index.cls(rel, f'CompactGridObject{kind}Representation')
         init = c.methods['__init__']
-        w = walk_function(init.node)
-        d = w.sole_binding('grid_object_types')
-        ok = d is not None and src(d[1]) in (
-            f'_sorted_object_types(set({sp_attr}.object_types) | {extra})',)
+        from ..view import view
+        vnode, w, _ = view(index, init, cross=('compact_grid_object_representation_maps',),
+                           keep=('_sorted_object_types', '_sorted_colors'))
+        # every sort-by-type-index / sort-by-colour-value in the (normalised) constructor
+        type_args, colour_args = [], []
+        for n in ast.walk(vnode):
+            if not (isinstance(n, ast.Call) and n.args):
+                continue
+            fs = src(n.func)
+            key = next((src(k.value) for k in n.keywords if k.arg == 'key'), '')
+            if fs.endswith('_sorted_object_types') or (fs == 'sorted' and 'type_index()' in key):
+                type_args.append(src(w.expand(n.args[0])))
+            elif fs.endswith('_sorted_colors') or (fs == 'sorted' and key.endswith('.value')):
+                colour_args.append(src(w.expand(n.args[0])))
+        inner = extra.strip('{}').split(', ')
+        good_t = {f'set({sp_attr}.object_types) | {{{", ".join(p_)}}}'
+                  for p_ in itertools.permutations(inner)}
+        ok = bool(type_args) and all(t in good_t for t in type_args)
         rep.check(bool(ok), rule, rel, f'{c.name}.__init__', init.node.lineno,
-                  src(d[1]) if d else '', f'{c.name}: the compact maps are not built over the '
+                  '; '.join(type_args), f'{c.name}: the compact maps are not built over the '
                   f'space\'s object types plus {extra}', f'{c.name} type set')
-        d = w.sole_binding('grid_object_colors')
-        rep.check(d is not None and src(d[1]) == f'_sorted_colors({sp_attr}.colors)', rule, rel,
-                  f'{c.name}.__init__', init.node.lineno, src(d[1]) if d else '',
+        okc = bool(colour_args) and all(t in (f'{sp_attr}.colors', f'set({sp_attr}.colors)')
+                                        for t in colour_args)
+        rep.check(okc, rule, rel,
+                  f'{c.name}.__init__', init.node.lineno, '; '.join(colour_args),
                   f'{c.name}: the compact colour map is not built over the space\'s colours',
                   f'{c.name} colour set')
 
